@@ -228,6 +228,10 @@ def sys_part(tier, rng, rep, replay):
     per = [HoldPerSession(700 + k, d, L, rh) for k, (d, L, rh) in enumerate(
         (("out", 9, (3, 9, 30)), ("out", 90, (0, 30, 90)), ("out", 30, (90, 3, 0, 30)), ("in", 9, (3, 9)), ("out", 0, (90, 0))))]
     covp = sysrun.run_convs(PID, per, rep, extra_check=lambda c, e, o, r: c.check(r), par=8)
+    # the hold timer fires while the FSM is busy in a slow handler although the remote kept sending: no expiry afterwards
+    import C03
+    slow = [C03.SlowHandler(760 + k) for k in range(6 if tier == "quick" else 16)]
+    covs = sysrun.run_convs(PID, slow, rep, extra_check=lambda c, e, o, r: c.check(r), par=16, confirm=4)
     cs = convs(rng, tier)
     # wire/cbs are timing dependent (periodic keepalives); compare the handshake prefix and the returns
     cov = sysrun.run_convs(PID, cs, rep, keys=(), extra_check=timing_check, par=64)
@@ -237,6 +241,7 @@ def sys_part(tier, rng, rep, replay):
     cov["distinct_nontrivial"] = cov.get("distinct_nontrivial", 0) + covt.get("distinct_nontrivial", 0)
     cov["timer_operation_sessions"] = covt.get("evaluations", 0)
     cov["hold_per_session_scenarios"] = covp.get("evaluations", 0)
+    cov["slow_handler_sessions"] = covs.get("evaluations", 0)
     cov["evaluations"] = cov.get("evaluations", 0) + covp.get("evaluations", 0)
     return cov
 
